@@ -1,3 +1,4 @@
+import PP.Core.FloatLike
 /-!
 # Rust iterator / slice / `Option` / `usize` idioms as list functions
 
@@ -84,5 +85,84 @@ def mapAccumM : List A → S → (S → A → Option (B × S)) → Option (List 
   | [], _, _ => some []
   | a :: as, s, f =>
     Option.bind (f s a) fun r => Option.bind (mapAccumM as r.2 f) fun bs => some (r.1 :: bs)
+
+/-! ## second round: the idioms of `PiecewiseEvaluator` and of the `+` / `-` merge loops
+
+`Ordering::{Less, Equal, Greater}` of `std::cmp` is core Lean's `Ordering.{lt, eq, gt}`.  Slices that
+borrow from one backing vector are independent lists (they are only read). -/
+
+/-- `a.saturating_sub(b)` on `usize`: `a - b`, or `0` if `b > a` (never panics) -/
+@[reducible] def saturatingSub (a b : Nat) : Nat := a - b
+/-- `a.min(b)` on `usize` (`Ord::min`) -/
+@[reducible] def umin (a b : Nat) : Nat := Min.min a b
+/-- `Vec::with_capacity(n)`: an empty vector; the capacity is not observable (the computation of `n`
+can panic and is threaded by the caller before this call) -/
+@[reducible] def withCapacity (_n : Nat) : List A := []
+/-- `v.split_first()`: `Some((&v[0], &v[1..]))`, `None` if `v` is empty -/
+def splitFirst : List A → Option (A × List A)
+  | [] => none
+  | a :: as => some (a, as)
+/-- `v.split_last()`: `Some((&v[len-1], &v[..len-1]))`, `None` if `v` is empty -/
+def splitLast : List A → Option (A × List A)
+  | [] => none
+  | a :: as => some ((a :: as).getLast (List.cons_ne_nil a as), (a :: as).dropLast)
+/-- `v.split_at_checked(n)`: `Some((&v[..n], &v[n..]))` if `n <= len`, `None` otherwise -/
+def splitAtChecked (l : List A) (n : Nat) : Option (List A × List A) :=
+  if n ≤ l.length then some (l.take n, l.drop n) else none
+/-- `it.enumerate()` started at index `n` -/
+def enumFrom : Nat → List A → List (Nat × A)
+  | _, [] => []
+  | n, a :: as => (n, a) :: enumFrom (n + 1) as
+/-- `it.enumerate()`: the items paired with their index, `(0, a0), (1, a1), …` -/
+@[reducible] def enumerate (l : List A) : List (Nat × A) := enumFrom 0 l
+/-- `it.find_map(f)`: the first `Some` that `f` returns, `None` if there is none
+(`f` is not applied to the items after it, and `f` is pure here) -/
+def findMap : List A → (A → Option B) → Option B
+  | [], _ => none
+  | a :: as, f => match f a with
+    | some b => some b
+    | none => findMap as f
+/-- `opt.unwrap_or(d)` (`d` is evaluated eagerly, as in Rust) -/
+@[reducible] def unwrapOr (o : Option A) (d : A) : A :=
+  match o with
+  | none => d
+  | some a => a
+/-- `opt.map(f)` -/
+@[reducible] def optMap (o : Option A) (f : A → B) : Option B :=
+  match o with
+  | none => none
+  | some a => some (f a)
+/-- `a.partial_cmp(&b)` on `f64`: `None` iff one side is NaN, otherwise `Less` / `Greater` / `Equal`
+according to `a < b` / `b < a` / neither -/
+def partialCmp {F : Type} [FloatLike F] (a b : F) : Option Ordering :=
+  if FloatLike.isNaN a || FloatLike.isNaN b then none
+  else if FloatLike.lt a b then some .lt else if FloatLike.lt b a then some .gt else some .eq
+
+/-- what one pass through the body of a `loop { … }` does: `break` (with the value of the loop and the
+variables the loop assigns) or fall through to the next iteration (with those variables) -/
+inductive Flow (R S : Type) where
+  | brk (r : R)
+  | next (s : S)
+
+/-- `loop { body }` whose termination is not structural: `step s` is one pass through the body from
+the state `s` (`none` = panic).  Lean needs a bound: `fuel` passes at most, and running out of fuel is
+`none` as well (the caller proves that this does not happen). -/
+def loopFuel {R : Type} : Nat → S → (S → Option (Flow R S)) → Option R
+  | 0, _, _ => none
+  | fuel + 1, s, step =>
+    Option.bind (step s) fun r =>
+    match r with
+    | .brk r => some r
+    | .next s' => loopFuel fuel s' step
+
+/-- `loop { let Some((first, tail)) = P.split_first() else { break e }; body; P = tail; }` where `body`
+does not assign to the variable `P` lives in: structural recursion on the slice `P`.  `s` = the
+variables the loop assigns, `onEmpty s` = the `break` of the `else`, `step s first tail` = `body; P = tail`. -/
+def loopSplitFirst {R : Type} : List A → S → (S → R) → (S → A → List A → Flow R S) → R
+  | [], s, onEmpty, _ => onEmpty s
+  | a :: as, s, onEmpty, step =>
+    match step s a as with
+    | .brk r => r
+    | .next s' => loopSplitFirst as s' onEmpty step
 
 end Iter
